@@ -6,6 +6,9 @@ import Logrange.Generated.C04
 * `mix <tree> | <op>*`      — run the operations on an explicitly given tree of mixers
 * `cur <k> <leaf>{k} | <op>*` — build the iterator the way `newCursor` does (in-place pairwise reduction) from the
                                `k` sources in the given (map iteration) order, then run the operations
+* `curs <k> (<hexline> <leaf>){k} | <op>*` — the same from a *map*: entries (tag line, source) in the iteration order given;
+                               the order of the sources is what `newCursor` makes of it now (regenerated fact: sorted by
+                               tag line), then reduction and operations as for `cur`
 * `spec.merge <0|1> <leafrecs> | <leafrecs>` — SPEC: `mergeSpec bk xs ys` on two event lists given as leaves
 * `gj <maxLimit> <n>`       — `GetJournals` over `n` matching partitions: `ok <n>` / `err`, then `held=<sum of readers>`
 * `limit`                   — the regenerated merge limit of `newCursor`
@@ -43,6 +46,13 @@ def parseLeaves : Nat → List String → Option (List Leaf × List String)
   | k+1, toks => match parseLeaf toks with
     | some (l, r) => (parseLeaves k r).map (fun (ls, r') => (l :: ls, r'))
     | none => none
+
+def parseKeyed : Nat → List String → Option (List (Bytes × Leaf) × List String)
+  | 0, r => some ([], r)
+  | k+1, key :: toks => match parseLeaf toks with
+    | some (l, r) => (parseKeyed k r).map (fun (ls, r') => ((unhex key, l) :: ls, r'))
+    | none => none
+  | _, _ => none
 
 def showEv (e : Ev) : String := s!"{e.ts}:{e.msg}:{e.tags}"
 
@@ -90,6 +100,13 @@ def step (_ : Unit) (toks : List String) : Unit × String :=
     match parseLeaves (k.toNat?.getD 0) (beforeBar rest) with
     | some (ls, []) =>
       (match build ls with
+       | some it => ((), " ".intercalate (runOps it (afterBar rest)))
+       | none => ((), "nosources"))
+    | _ => ((), "bad-leaves")
+  | "curs" :: k :: rest =>
+    match parseKeyed (k.toNat?.getD 0) (beforeBar rest) with
+    | some (ls, []) =>
+      (match buildFromMap Logrange.Generated.C04.newCursorSortsSources ls with
        | some it => ((), " ".intercalate (runOps it (afterBar rest)))
        | none => ((), "nosources"))
     | _ => ((), "bad-leaves")
